@@ -727,7 +727,7 @@ def r11(run):
         run.missing("xs::api::handle_stream_append|body", "handle_stream_append not found")
         return
     aps = F.appends_in(ab)
-    run.exact("Store::append calls in handle_stream_append", len(aps), 1, ab.sp)
+    run.floor("Store::append calls in handle_stream_append", len(aps), 1, ab.sp)
     for a in aps:
         srcs = F.content_sources(a.setters.get("hash"), run.facts)
         run.ob("xs::api::handle_stream_append|frame-carries-body-hash", bool(srcs) and all(c.fn.startswith("cacache::put::") for c in srcs), a.call.sp,
